@@ -306,7 +306,7 @@ def special_pairs(rng):
     u = 6 * rng.choice([1, 1, 2, 5])
     k = rng.choice(['hole_on_edge', 'hole_on_vertex', 'two_holes', 'shared_edge', 'mp_touch', 'empties', 'zero_len', 'line_cross_vertex',
                     'three_edges', 'gc_cover', 'ring_line', 'hole_on_edge', 'hole_on_edge', 'typed_empty', 'gc_point_outside', 'closed_open_lines', 'line_touch_line',
-                    'rect_around', 'rect_around', 'rect_around', 'gc_line_ends', 'gc_line_ends', 'closed_fold', 'closed_fold', 'closed_fold'])
+                    'rect_around', 'rect_around', 'rect_around', 'gc_line_ends', 'gc_line_ends', 'closed_fold', 'closed_fold', 'closed_fold', 'closed_fold', 'closed_fold', 'closed_fold', 'closed_fold'])
     S = lambda pts: [(x * u, y * u) for x, y in pts]
     if k == 'hole_on_edge':          # F21: a hole touching the interior of a shell edge
         A = ('Polygon', [S([(0, 0), (4, 0), (4, 4), (0, 4), (0, 0)]), S([(2, 0), (3, 1), (1, 1), (2, 0)])])
@@ -364,11 +364,11 @@ def special_pairs(rng):
                         ('LineString', S([(0, 0), (6, 0)])), ('Polygon', [S([(0, 0), (3, 0), (3, 3), (0, 3), (0, 0)])]), ('Point', S([(3, 3)])[0]), ('Polygon', [S([(6, 0), (9, 0), (9, 6), (6, 6), (6, 0)])])])
     elif k == 'closed_fold':         # a CLOSED line that doubles back along itself (across its closing vertex, or elsewhere) against things collinear with the fold
         x0, x1, x2 = sorted(rng.sample(range(0, 12), 3)); hgt = rng.randint(1, 4); y = rng.randint(0, 5)
-        if rng.random() < 0.6:       # last segment runs back along the first one and ends at the start: the fold tip is the closing vertex
+        if rng.random() < 0.7:       # last segment runs back along the first one and ends at the start: the fold tip is the closing vertex
             cl = [(x0, y), (x2, y), (x2, y + hgt), (x1, y + hgt), (x1, y), (x0, y)]
         else:                        # the fold is in the middle of the sequence: out to x2, back to x1, up and home
             cl = [(x1, y + hgt), (x1, y), (x2, y), (x0, y), (x0, y + hgt), (x1, y + hgt)]
-        kk = rng.randrange(len(cl) - 1) if rng.random() < 0.3 else 0
+        kk = rng.randrange(len(cl) - 1) if rng.random() < 0.2 else 0
         body = cl[:-1]; body = body[kk:] + body[:kk]; cl = body + [body[0]]
         if rng.random() < 0.5: cl = cl[::-1]
         xm = rng.choice([x0, x1, x2, (x0 + x1) // 2, x0 - 1, x2 + 1])
@@ -378,6 +378,10 @@ def special_pairs(rng):
         T = rng.choice([lambda p: p, lambda p: (p[1], p[0]), lambda p: (-p[0], p[1]), lambda p: (p[1], -p[0])])
         A = ('LineString', S([T(p) for p in cl]))
         B = rng.choice(Bs)
+        if rng.random() < 0.6:       # an edge collinear with the fold that passes THROUGH the tip (strictly on both sides of x1)
+            xa = rng.randint(x0 - 1, x1 - 1); xb = rng.randint(x1 + 1, x2 + 1)
+            B = rng.choice([('LineString', [(xa, y), (xb, y)]), ('LineString', [(xb, y), (xa, y)]), ('LineString', [(xa, y - 2), (xa, y), (xb, y)]),
+                            ('Polygon', [[(xa, y), (xb, y), (xb, y - 3), (xa, y - 3), (xa, y)]]), ('MultiLineString', [('LineString', [(xa, y), (xb, y)]), ('LineString', [(xa, y + 7), (xb, y + 9)])])])
         B = map_coords(B, lambda p: S([T(p)])[0])
     elif k == 'closed_open_lines':   # a closed line (no boundary) beside an open one, in both orders
         cl = rng.choice([('LineString', S([(0, 0), (0, 6), (0, 0)])), ('LineString', S([(0, 0), (0, 6), (2, 2), (0, 0)])), ('LineString', S([(0, 0), (4, 0), (4, 4), (0, 4), (0, 0)]))])
